@@ -73,6 +73,8 @@ def configs(tier):
     for n in STRS:
         c.append({"kind": "str", "name": n, "L": L})
     c.append({"kind": "cli", "L": L + 1})
+    for n in BOOLS[:3] + STRS[:1]:
+        c.append({"kind": "written", "name": n, "L": L})
     c.append({"kind": "unknown", "L": 3})
     k = 1 if tier == "quick" else 4
     c += [{"kind": "xh", "func": f, "timeout": t * k, "desc": d} for f, t, d in XH]
@@ -283,6 +285,46 @@ def run_cli(cfg):
     return res
 
 
+def run_written(cfg):
+    """the profile command's options section: the real get_sam_profile_data (uniform
+    '<illumina>' pseudo-sample, no file access) with a symbolic parameter string."""
+    from aldy.common import GRange
+
+    res = new_result(cfg)
+    name = cfg["name"]
+    eng = Engine(name="c18")
+    v = SStr.var("v", cfg["L"])
+    regs = {("G", "e1", 0): GRange("1", 10, 20)}
+
+    def run():
+        try:
+            d = Profile.get_sam_profile_data("<illumina>", regions=dict(regs),
+                                             cn_region=GRange("1", 100, 200),
+                                             genome="hg19", params={name: v})
+        except AldyException:
+            return "rej", None
+        return "ok", d
+
+    for dec, pc, (st, d) in eng.explore(run, v.constraints()):
+        if name in BOOLS:
+            wt, wf = spec_bool_z(v)
+            if st == "rej":
+                g = z3.Not(z3.Or(wt, wf))
+            else:
+                o = d.get("options", {})
+                g = z3.And(z3.BoolVal(set(o) == {name} and isinstance(o.get(name), bool)),
+                           z3.If(z3.BoolVal(bool(o.get(name))), wt, wf))
+        else:
+            o = (d or {}).get("options", {})
+            val = o.get(name)
+            g = z3.BoolVal(st == "ok" and set(o) == {name}) if not isinstance(val, SStr) \
+                else z3.And(z3.BoolVal(set(o) == {name}), val.z == v.z)
+        report(res, eng, f"written profile: options section carries {name} with the typed "
+                         "value", g, [v], {"kind": "written", "name": name, "key": "written"})
+    res["stats"] = {**dict(eng.stats), **res["stats"]}
+    return res
+
+
 def run_unknown(cfg):
     res = new_result(cfg)
     eng = Engine(name="c18")
@@ -369,6 +411,21 @@ def replay(o):
             return False, "reserved name"
         good = len(calls) == 1 and calls[0].get(kk) == vv
         return not good, f"--param {p!r}: genotype() received {calls!r}"
+    if k == "written":
+        from aldy.common import GRange
+
+        try:
+            d = Profile.get_sam_profile_data(
+                "<illumina>", regions={("G", "e1", 0): GRange("1", 10, 20)},
+                cn_region=GRange("1", 100, 200), genome="hg19",
+                params={o["name"]: vals[0]})
+        except AldyException:
+            return (o["name"] in BOOLS and spec_bool(vals[0]) is not None), \
+                f"profile command rejects {o['name']}={vals[0]!r}"
+        opt = d.get("options", {})
+        want = spec_bool(vals[0]) if o["name"] in BOOLS else vals[0]
+        return opt != {o["name"]: want}, (f"profile command with {o['name']}={vals[0]!r} "
+                                          f"writes options {opt!r}")
     if k == "unknown":
         try:
             d = Profile("x", **{o["name"]: vals[0]}).__dict__
